@@ -7,6 +7,7 @@ import re
 import shutil
 import subprocess
 import tempfile
+import time
 
 PY = "/venv/bin/python"
 TB_MARK = "Traceback (most recent call last)"
@@ -20,6 +21,7 @@ def _env(home):
 
 
 def observe(argv, cwd, timeout):
+    t0 = time.time()
     try:
         p = subprocess.run([PY, "-m", "isla"] + argv, cwd=cwd, env=_env(cwd), stdin=subprocess.DEVNULL,
                            stdout=subprocess.PIPE, stderr=subprocess.PIPE, timeout=timeout)
@@ -42,7 +44,7 @@ def observe(argv, cwd, timeout):
             where = "%s:%s" % (os.path.basename(repo[-1][0]), repo[-1][1])
             stack = ["%s:%s" % (os.path.basename(f), fn) for f, fn in repo][-12:]
     return {"status": status, "out_empty": out.strip() == "", "err_empty": err.strip() == "", "tb": tb, "timeout": timed_out,
-            "exc": exc, "where": where, "frames": stack, "stdout": out, "stdout_head": out[:400], "stderr_tail": err[-700:]}
+            "exc": exc, "where": where, "frames": stack, "wall": round(time.time() - t0, 2), "stdout": out, "stdout_head": out[:400], "stderr_tail": err[-700:]}
 
 
 def strip_obs(o):
